@@ -280,7 +280,7 @@ Section Later.
   Lemma J_app_here c e r : e_id e <> id -> J c -> J (fst (app_here c e r)).
   Proof.
     intros Hne H. unfold app_here.
-    destruct (negb _ || existsb (N.eqb (e_msg e)) (k_seen (kc c))); [exact (J_frame _ _ (frame_rf c _ _ _ Hne) H)|].
+    destruct (negb _ || existsb (N.eqb (e_msg e)) (k_seen (kc c)) || (e_bad e =? 7)); [exact (J_frame _ _ (frame_rf c _ _ _ Hne) H)|].
     cbv zeta. cbn [fst]. eapply J_frame; [|exact H].
     eapply frame_trans; [apply (frame_core c (with_seen (kc c) (e_msg e :: k_seen (kc c)))); apply ext_seen_cons|].
     eapply frame_trans; [apply frame_msgs|].
@@ -497,7 +497,7 @@ Proof.
   1,3: unfold here; change (me (ens c)) with (me c);
        (destruct (N.eqb_spec (e_author e) (me c)) as [E|_]; [contradiction|]);
        (destruct (e_kind e =? 1);
-        [unfold app_here; destruct (negb _ || existsb (N.eqb (e_msg e)) (k_seen (kc (ens c)))); [discriminate|]; intros _;
+        [unfold app_here; destruct (negb _ || existsb (N.eqb (e_msg e)) (k_seen (kc (ens c))) || (e_bad e =? 7)); [discriminate|]; intros _;
          exists (k_epoch (kc (ens c))); split; [reflexivity|]; right; right;
          cbv zeta; cbn [fst];
          pose proof (upd_last_fields (with_seen (kc (ens c)) (e_msg e :: k_seen (kc (ens c)))) (e_msg e) (e_msg e)) as F;
@@ -809,7 +809,7 @@ Proof.
       * exfalso. apply (H _ d Hd); [rewrite Hm; discriminate|exact Hx].
     + destruct (d_state d =? PS_COMMIT); exact H.
   - destruct (e_kind e =? 1).
-    + unfold app_here. destruct (negb _ || existsb (N.eqb (e_msg e)) (k_seen (kc c))); [apply DS_rf; exact H|].
+    + unfold app_here. destruct (negb _ || existsb (N.eqb (e_msg e)) (k_seen (kc c)) || (e_bad e =? 7)); [apply DS_rf; exact H|].
       cbv zeta. cbn [fst]. eapply DS_same; [|apply (DS_put c (e_id e) PS_PROCESSED (k_epoch (kc c)) (Some (e_msg e))); exact H].
       reflexivity.
     + destruct (e_kind e =? 2).
